@@ -447,6 +447,9 @@ def prog_replay(rng, **kw):
             p_ = prog["px"][c][r]
             rows.append([r, c, rng.choice([10, 25, -10, -5, 40, 100]), p_ + rng.choice([0, 0, 1, -1, 2]), rng.choice([0, 0, 3, 6])])
     rows.sort(key=lambda x: (x[0], -x[4]))
+    if rng.random() < 0.5:
+        # per-ticker blotters, each in time order, glued together: not sorted by date overall
+        rows = [r for c in rng.sample(list(cols), len(cols)) for r in rows if r[1] == c]
     prog["extra"]["blotter"] = {"__tx__": True, "rows": rows}
     st = [["ReplayTransactions", {"transactions": "blotter"}]]
     if rng.random() < 0.3:
